@@ -5,13 +5,15 @@ Two closed worlds, both driven by engine S (vt.sched):
 * asyncio: the REAL cassandra.io.asyncioreactor.AsyncioConnection (only `_connect_socket` is replaced, by a
   fake socket) on `VLoop`, an asyncio.BaseEventLoop subclass without selector.  The loop is ONE virtual
   thread; one step = one whole ready handle (callback / task step), exactly the atom of a real event
-  loop.  Inside the three driver functions of the write path (push, _push_msg, handle_write) every source
-  line is a scheduling point as well, so a pusher thread may be scheduled in the middle of a handle that
-  executes driver code; asyncio's own code is never traced.
+  loop.  Inside every function defined in cassandra/io/asyncioreactor.py (push, _push_msg, handle_write,
+  handle_read, any helper; selected by file name, not by function name) every source line is a scheduling
+  point as well, so a pusher thread may be scheduled in the middle of a handle that executes driver code;
+  asyncio's own code is never traced.
 * twisted: the REAL cassandra.io.twistedreactor.TwistedConnection over `VReactor` (callFromThread = append +
   scheduling point, connectTCP = build the protocol and attach the transport) and a transport that is
   twisted's real `abstract.FileDescriptor` buffer whose `writeSomeData` (the socket) accepts everything or
-  only a part (environment answer).
+  only a part (environment answer).  Every function defined in cassandra/io/twistedreactor.py is
+  preemptible at line granularity; twisted's own code is not traced.
 
 The oracle (`judge`) is plain byte arithmetic on tagged messages and knows nothing of the driver.
 """
@@ -391,9 +393,11 @@ class VAsyncioConnection(ar.AsyncioConnection):
         self._socket = FakeSocket(VAsyncioConnection._v_rec)
 
 
-ASYNCIO_FOCUS = [ar.AsyncioConnection.push.__code__,
-                 ar.AsyncioConnection._push_msg.__code__,
-                 ar.AsyncioConnection.handle_write.__code__]
+# Line-granular preemption applies to EVERY function defined in the reactor module (whichever thread runs it:
+# push in a pusher thread, the coroutines and any helper the loop thread runs), not to a list of names: a
+# hand-over helper added to the module is split at its source lines like push/_push_msg/handle_write are.
+# asyncio's own code (Task, Queue, Lock, run_coroutine_threadsafe) and cassandra/connection.py stay untraced.
+ASYNCIO_FOCUS_FILES = ('cassandra/io/asyncioreactor.py',)
 
 
 def run_asyncio(params, prefix, part):
@@ -403,7 +407,7 @@ def run_asyncio(params, prefix, part):
     calls may be answered 'one turn later'."""
     progs = programs_of(params)
     rec = Recorder()
-    s = PooledScheduler(prefix, focus=ASYNCIO_FOCUS, horizon=params.get('horizon', 4000))
+    s = PooledScheduler(prefix, focus_files=ASYNCIO_FOCUS_FILES, horizon=params.get('horizon', 4000))
     loop = VLoop()
     stub = _Ident()
     saved = (ar.AsyncioConnection._loop, ar.AsyncioConnection._loop_thread)
@@ -577,7 +581,8 @@ if _tw_abstract is not None:
     class VTwistedConnection(tr.TwistedConnection):
         out_buffer_size = N
 
-    TWISTED_FOCUS = [tr.TwistedConnection.push.__code__]
+    # every function defined in the reactor module (push, and whatever the reactor thread runs of it)
+    TWISTED_FOCUS_FILES = ('cassandra/io/twistedreactor.py',)
 
 
 class _TwLoopStub(object):
@@ -591,7 +596,7 @@ class _TwLoopStub(object):
 def run_twisted(params, prefix, part):
     progs = programs_of(params)
     rec = Recorder()
-    s = PooledScheduler(prefix, focus=TWISTED_FOCUS, horizon=params.get('horizon', 4000))
+    s = PooledScheduler(prefix, focus_files=TWISTED_FOCUS_FILES, horizon=params.get('horizon', 4000))
     r = VReactor(rec)
     saved = (tr.reactor, tr.TwistedConnection._loop)
     tr.reactor, tr.TwistedConnection._loop = r, _TwLoopStub()
@@ -694,6 +699,9 @@ def _judge_execution(reactor, params, s, progs, wire, nwrites, rec, part, extra,
         if min(lp) <= N < max(lp):
             part.count('executions_with_chunked_and_single_chunk_pushes_inside_one_loop_callback')
     part.count('socket_writes', nwrites)
+    # which driver functions offered a line-level choice point (and to which thread) in this execution
+    for fn in set(p.info[0] for p in s.trace if p.kind == 'line' and p.info):
+        part.count('executions_with_line_level_choice_inside:%s' % fn)
     npre = sum(1 for p in s.trace if p.cost and p.chosen)
     # prefer a sample that shows something: a preempted execution in which pushes overlapped
     kind = [reactor, bool(params.get('loop')), bool(params.get('cold')), len(params['msgs']),
